@@ -7,6 +7,7 @@ package websocket
 // that the Dialer's configuration trusts. None of this runs symbolically.
 
 import (
+	"io"
 	"bufio"
 	"crypto/ecdsa"
 	"crypto/elliptic"
@@ -83,6 +84,7 @@ type vfHop struct {
 	name     string
 	trusted  bool
 	connect  bool // read a CONNECT request and answer 200
+	socks    bool // RFC 1928 negotiation: no authentication, CONNECT granted
 }
 
 // vfNativePeer serves the far end of a piped connection.
@@ -96,6 +98,35 @@ func vfNativePeer(server net.Conn, hops []vfHop, reply func(r *http.Request) []b
 				return
 			}
 			conn = ts
+		}
+		if h.socks {
+			b := make([]byte, 300)
+			ok := func(n int) bool { _, err := io.ReadFull(conn, b[:n]); return err == nil }
+			if !ok(2) || !ok(int(b[1])) {
+				server.Close()
+				return
+			}
+			conn.Write([]byte{5, 0})
+			if !ok(4) {
+				server.Close()
+				return
+			}
+			n := 4
+			switch b[3] {
+			case 4:
+				n = 16
+			case 3:
+				if !ok(1) {
+					server.Close()
+					return
+				}
+				n = int(b[0])
+			}
+			if !ok(n + 2) {
+				server.Close()
+				return
+			}
+			conn.Write([]byte{5, 0, 0, 1, 0, 0, 0, 0, 0, 0})
 		}
 		if h.connect {
 			rq, err := http.ReadRequest(bufio.NewReader(conn))
